@@ -282,12 +282,12 @@ func runStress(c stressCase, sec *vh.Section) {
 
 func sectionStress(rng *vh.Rng) {
 	sec := res.Section("stress", "stress",
-		"thorough tier only: 6 free-running writers (4 through their own RPC clients, 2 through partition.Service.Write), 40 batches each of 1..9 (a tenth: 40..99) events, two thirds to a shared partition, one third to a private one, MaxChunkSize {300, 700, 3000} so batches span roll-overs and interleave; 3 concurrent readers of the shared partition (must be duplicate-free, per-writer increasing, intact); after all writers finished and the flush was awaited a final full read of every partition through backend.Querier and RPC must contain, per writer, exactly its acknowledged sequence numbers in write order with intact payloads. non-trivial = every run")
+		"thorough tier only (6 runs): 6 free-running writers (4 through their own RPC clients, 2 through partition.Service.Write), 40 batches each of 1..9 (a tenth: 40..99) events, two thirds to a shared partition, one third to a private one, MaxChunkSize {300, 700, 3000} so batches span roll-overs and interleave; 3 concurrent readers of the shared partition (must be duplicate-free, per-writer increasing, intact); after all writers finished and the flush was awaited a final full read of every partition through backend.Querier and RPC must contain, per writer, exactly its acknowledged sequence numbers in write order with intact payloads. non-trivial = every run")
 	if !args.Thorough {
 		res.Done(sec)
 		return
 	}
-	for i := 0; i < 9; i++ {
+	for i := 0; i < 6; i++ {
 		runStress(stressCase{MaxChunk: []int{300, 700, 3000}[i%3], Writers: 6, Batches: 40, Seed: int64(rng.U64() >> 1)}, sec)
 	}
 	res.Done(sec)
@@ -466,10 +466,10 @@ func runXRead(c xreadCase, sec *vh.Section) {
 
 func sectionXRead(rng *vh.Rng) {
 	sec := res.Section("xread", "stress",
-		"concurrent readers over a quiescent store: 4 partitions x 1500 self-describing events (~110-byte messages, write-level + own fields; a full result is ~250 KB, far above the server's 4 KB initial result buffer) written through RPC, flush awaited; one sequential read per partition, then three configurations — 24 readers over 16 partitions with ~2 MB pages under GOMAXPROCS 4 and 4 writers sending 3000-event batches to other partitions (more busy connections than Ps: a pooled buffer released too early is then re-used by another handler), 8 readers with ~250 KB pages, 12 readers with 300-event pages under GOMAXPROCS 2 — each reader on its own RPC connection re-reads its partition completely over and over for 4 s / 1.5 s / 1.5 s (thorough: 3 rounds of 4 s each, two of them with 2 writers to other partitions; page sizes 10000 and 300): every read must be exactly the partition's events (count, order, timestamp, message, tag line, fields). No writer touches the partitions being read, so the tail race #34 cannot occur. non-trivial = every run")
+		"concurrent readers over a quiescent store: self-describing events (write-level + own fields, messages naming partition and index) written through RPC, flush awaited; one sequential read per partition, then three configurations — 24 readers over 16 partitions with ~2 MB pages under GOMAXPROCS 4 and 4 writers sending 3000-event batches to other partitions (more busy connections than Ps: a pooled buffer released too early is then re-used by another handler), 8 readers with ~250 KB pages, 12 readers with 300-event pages under GOMAXPROCS 2 — each reader on its own RPC connection re-reads its partition completely over and over for 4 s / 1.5 s / 1.5 s (thorough: the 2 MB configuration once, the two smaller ones twice for 3 s, the second time with 2 writers to other partitions): every read must be exactly the partition's events (count, order, timestamp, message, tag line, fields). No writer touches the partitions being read, so the tail race #34 cannot occur. non-trivial = every run")
 	dur, rounds := 1500, 1
 	if args.Thorough {
-		dur, rounds = 4000, 3
+		dur, rounds = 3000, 2
 	}
 	for i := 0; i < rounds; i++ {
 		w := 0
@@ -482,8 +482,8 @@ func sectionXRead(rng *vh.Rng) {
 			{Parts: 4, Events: 1500, MsgLen: 80, Readers: 8, Reads: 1 << 20, DurMs: dur, Page: 10000, Writers: w},
 			{Parts: 3, Events: 2000, MsgLen: 60, Readers: 12, Reads: 1 << 20, DurMs: dur, Page: 300, Writers: w, Procs: 2},
 		} {
-			if c.Procs == 4 && i >= 2 {
-				continue // the 2 MB-page configuration is the expensive one (128k events written per run): twice per thorough run
+			if c.Procs == 4 && i >= 1 {
+				continue // the 2 MB-page configuration is the expensive one (128k events written per run): once per run
 			}
 			runXRead(c, sec)
 			if len(res.SpecFailures) > 0 && res.SpecFailures[len(res.SpecFailures)-1].Section == "xread" {
